@@ -139,7 +139,10 @@ SRef(fn, a) ==
          ELSE UNDEF
     [] fn = "sort" ->
          IF n = 1 /\ a[1].st = "k" /\ a[1].ty.k = "list" /\ a[1].ty.e.k = "string" /\ Sortable(Elems(a[1]))
-         THEN OKV(SeqV(a[1].ty, SortSeq(Elems(a[1]), LAMBDA x, y : StrLess(StrOf(x), StrOf(y))))) ELSE UNDEF
+         THEN OKV(SeqV(a[1].ty, SortSeq(Elems(a[1]), LAMBDA x, y : StrLess(StrOf(x), StrOf(y)))))
+         \* a null element has no place in the order: rejected whatever the length of the list
+         ELSE IF n = 1 /\ a[1].st = "k" /\ a[1].ty.k = "list" /\ a[1].ty.e.k = "string" /\ (\E i \in 1..Len(Elems(a[1])) : Elems(a[1])[i].st = "null") THEN REJ
+         ELSE UNDEF
     [] fn = "zipmap" ->
          IF n = 2 /\ a[1].st = "k" /\ a[1].ty.k = "list" /\ a[1].ty.e.k = "string" /\ a[2].st = "k" /\ a[2].ty.k \in {"list", "tuple"}
                   /\ (\A i \in 1..Len(Elems(a[1])) : Elems(a[1])[i].st = "k" /\ Len(StrOf(Elems(a[1])[i])) = 1)
